@@ -76,19 +76,21 @@ theorem accepted_of_checks {s : State} {ws : List Key} {sn : SignedNode} (h : In
     rename_i _ h2 h3
     exact ⟨by simpa using h2, by simpa using h3⟩
 
-/-- The checks `registerNode` has passed before it writes. -/
-structure NodeChecks (s : State) (t : Key) (sn : SignedNode) : Prop where
+/-- The checks `registerNode` has passed before it writes (`gen` = InitChain: there is no transaction
+signer and expired descriptors are admitted). -/
+structure NodeChecks (gen : Bool) (s : State) (t : Key) (sn : SignedNode) : Prop where
   ent : ∃ ws, s.entities.get sn.node.entity = some ws ∧ verifyNodeArgs s ws sn = none
-  signer : t = sn.node.id
-  notExpired : s.epoch < sn.node.expiration
+  signer : gen = false → t = sn.node.id
+  notExpired : gen = false → s.epoch < sn.node.expiration
+  stake : canAddClaim s s.claims (.ent sn.node.entity) (.node sn.node.id) (nodeThr sn.node) = true
   update : verifyExisting s sn.node = none
 
-theorem regNode_spec (ord : Order) (s : State) (t : Key) (sn : SignedNode) :
-    (regNode ord s t sn).1 = s ∨
-    (NodeChecks s t sn ∧
-      (regNode ord s t sn = (regNodeOk ord s sn.node, .ok) ∨
+theorem regNode_spec (gen : Bool) (ord : Order) (s : State) (t : Key) (sn : SignedNode) :
+    (regNode gen ord s t sn).1 = s ∨
+    (NodeChecks gen s t sn ∧
+      (regNode gen ord s t sn = (regNodeOk ord s sn.node, .ok) ∨
        ((∃ cur, s.nodes.get sn.node.id = some cur) ∧ s.status.get sn.node.id = none ∧
-         regNode ord s t sn = (setNode ord s (s.nodes.get sn.node.id) sn.node, .invalidArgument "bare")))) := by
+         regNode gen ord s t sn = (setNode ord s (s.nodes.get sn.node.id) sn.node, .invalidArgument "bare")))) := by
   unfold regNode
   split
   · exact Or.inl rfl
@@ -104,81 +106,71 @@ theorem regNode_spec (ord : Order) (s : State) (t : Key) (sn : SignedNode) :
         · rename_i hexp
           split
           · exact Or.inl rfl
-          · rename_i hu
-            have hc : NodeChecks s t sn :=
-              ⟨⟨ws, hws, hv⟩, by simpa using ht, by simpa using hexp, hu⟩
+          · rename_i hstake
             split
-            · rename_i hbad
-              refine Or.inr ⟨hc, Or.inr ⟨?_, ?_, rfl⟩⟩
-              · cases hn : s.nodes.get sn.node.id with
-                | none => simp [hn] at hbad
-                | some cur => exact ⟨cur, rfl⟩
-              · cases hst : s.status.get sn.node.id with
-                | none => rfl
-                | some st => simp [hst] at hbad
-            · exact Or.inr ⟨hc, Or.inl rfl⟩
+            · exact Or.inl rfl
+            · rename_i hu
+              have hc : NodeChecks gen s t sn :=
+                ⟨⟨ws, hws, hv⟩, by intro hg; subst hg; simpa using ht, by intro hg; subst hg; simpa using hexp,
+                  by simpa using hstake, hu⟩
+              split
+              · rename_i hbad
+                refine Or.inr ⟨hc, Or.inr ⟨?_, ?_, rfl⟩⟩
+                · cases hn : s.nodes.get sn.node.id with
+                  | none => simp [hn] at hbad
+                  | some cur => exact ⟨cur, rfl⟩
+                · cases hst : s.status.get sn.node.id with
+                  | none => rfl
+                  | some st => simp [hst] at hbad
+              · exact Or.inr ⟨hc, Or.inl rfl⟩
 
+/-- The authority-relevant part of a runtime descriptor (everything except the `suspended` flag). -/
+def rtCore (rt : Runtime) : RtId × Key × Gov × Kind := (rt.id, rt.entity, rt.gov, rt.kind)
 
-theorem susp_false_eq (x : Runtime) (h : x.suspended = false) : ({ x with suspended := false } : Runtime) = x := by
-  cases x; simp_all
+theorem rtCore_eq {x y : Runtime} (h : rtCore x = rtCore y) :
+    x.id = y.id ∧ x.entity = y.entity ∧ x.stakingAddr = y.stakingAddr ∧ rtThr x = rtThr y ∧ x.kind = y.kind ∧ x.gov = y.gov := by
+  simp only [rtCore, Prod.mk.injEq] at h
+  obtain ⟨h1, h2, h3, h4⟩ := h
+  refine ⟨h1, h2, ?_, ?_, h4, h3⟩
+  · simp [Runtime.stakingAddr, h1, h2, h3]
+  · simp [rtThr, h4]
 
-/-- `resumeRuntimes` only clears `suspended` flags of listed runtimes. -/
-theorem get_resumeRuntimes (rts : Map RtId Runtime) (l : List RtId) (r : RtId) :
-    (resumeRuntimes rts l).get r =
-      (rts.get r).map (fun x => if r ∈ l then { x with suspended := false } else x) := by
+/-- `resumeRuntimes` only clears `suspended` flags. -/
+theorem get_resumeRuntimes_core (ok : Runtime → Bool) (rts : Map RtId Runtime) (l : List RtId) (r : RtId) :
+    ((resumeRuntimes ok rts l).get r).map rtCore = (rts.get r).map rtCore := by
   induction l generalizing rts with
-  | nil => simp [resumeRuntimes]
+  | nil => rfl
   | cons r0 rs ih =>
     simp only [resumeRuntimes]
     cases h0 : rts.get r0 with
-    | none =>
-      simp only []
-      rw [ih]
-      by_cases e : r = r0
-      · subst e; simp [h0]
-      · simp [e]
+    | none => simp only []; exact ih rts
     | some x0 =>
       simp only []
       rw [ih]
-      by_cases hs : x0.suspended = true
-      · simp only [hs, if_true, Map.get_set]
+      split
+      · simp only [Map.get_set]
         by_cases e : r0 = r
-        · subst e; simp [h0]
-        · have : ¬ r = r0 := fun h => e h.symm
-          simp [e, this]
-      · have hs' : x0.suspended = false := by simpa using hs
-        simp only [hs', Bool.false_eq_true, if_false]
-        by_cases e : r = r0
-        · subst e
-          simp only [h0, Option.map_some, List.mem_cons, true_or, if_true]
-          by_cases hm : r ∈ rs
-          · simp [hm]
-          · simp [hm, susp_false_eq x0 hs']
+        · subst e; simp [h0, rtCore]
         · simp [e]
+      · rfl
 
-theorem get_resumeRuntimes_some {rts : Map RtId Runtime} {l : List RtId} {r : RtId} {x' : Runtime}
-    (h : (resumeRuntimes rts l).get r = some x') :
-    ∃ x, rts.get r = some x ∧ x'.id = x.id ∧ x'.entity = x.entity ∧ x'.stakingAddr = x.stakingAddr := by
-  rw [get_resumeRuntimes] at h
+theorem get_resumeRuntimes_some {ok : Runtime → Bool} {rts : Map RtId Runtime} {l : List RtId} {r : RtId}
+    {x' : Runtime} (h : (resumeRuntimes ok rts l).get r = some x') :
+    ∃ x, rts.get r = some x ∧ rtCore x' = rtCore x := by
+  have hc := get_resumeRuntimes_core ok rts l r
+  rw [h] at hc
   cases hx : rts.get r with
-  | none => simp [hx] at h
-  | some x =>
-    simp only [hx, Option.map_some, Option.some.injEq] at h
-    refine ⟨x, rfl, ?_⟩
-    subst h
-    split
-    · exact ⟨rfl, rfl, by cases hg : x.gov <;> simp [Runtime.stakingAddr, hg]⟩
-    · exact ⟨rfl, rfl, rfl⟩
+  | none => simp [hx] at hc
+  | some x => exact ⟨x, rfl, by simpa [hx] using hc⟩
 
-theorem get_resumeRuntimes_of {rts : Map RtId Runtime} {l : List RtId} {r : RtId} {x : Runtime}
-    (h : rts.get r = some x) :
-    ∃ x', (resumeRuntimes rts l).get r = some x' ∧ x'.id = x.id ∧ x'.entity = x.entity ∧
-      x'.stakingAddr = x.stakingAddr := by
-  rw [get_resumeRuntimes, h]
-  simp only [Option.map_some]
-  split
-  · exact ⟨_, rfl, rfl, rfl, by cases hg : x.gov <;> simp [Runtime.stakingAddr, hg]⟩
-  · exact ⟨_, rfl, rfl, rfl, rfl⟩
+theorem get_resumeRuntimes_of {ok : Runtime → Bool} {rts : Map RtId Runtime} {l : List RtId} {r : RtId}
+    {x : Runtime} (h : rts.get r = some x) :
+    ∃ x', (resumeRuntimes ok rts l).get r = some x' ∧ rtCore x' = rtCore x := by
+  have hc := get_resumeRuntimes_core ok rts l r
+  rw [h] at hc
+  cases hx : (resumeRuntimes ok rts l).get r with
+  | none => simp [hx] at hc
+  | some x' => exact ⟨x', rfl, by simpa [hx] using hc⟩
 
 theorem regNodeStatus_keeps (s : State) (ex : Option Node) (n : Node) (st : Option Status) (id : Key)
     (h : ∃ x, s.status.get id = some x) : ∃ x, (regNodeStatus s ex n st).get id = some x := by
@@ -212,7 +204,9 @@ theorem regNodeOk_inv_of (ord : Order) (s : State) (n : Node) (h : Inv s)
     (hsame : ∀ cur, s.nodes.get n.id = some cur → cur.entity = n.entity)
     (hidx : IndexInv (setNode ord s (s.nodes.get n.id) n)) : Inv (regNodeOk ord s n) := by
   have hnodes : (regNodeOk ord s n).nodes = s.nodes.set n.id n := rfl
-  have hrts : (regNodeOk ord s n).runtimes = resumeRuntimes s.runtimes n.runtimes := rfl
+  have hrts : (regNodeOk ord s n).runtimes =
+      resumeRuntimes (mayResume s (s.claims.set (.ent n.entity, .node n.id) (nodeThr n))) s.runtimes n.runtimes := rfl
+  have hcl : (regNodeOk ord s n).claims = s.claims.set (.ent n.entity, .node n.id) (nodeThr n) := rfl
   refine { toIndexInv := ?_, cl_sound := ?_, cl_compl := ?_, st_nodes := ?_, nodes_nodup := ?_ }
   · constructor
     · exact hidx.node_id
@@ -225,110 +219,109 @@ theorem regNodeOk_inv_of (ord : Order) (s : State) (n : Node) (h : Inv s)
     · exact hidx.be_compl
     · intro r x' hx'
       rw [hrts] at hx'
-      obtain ⟨x, hx, hid, _, _⟩ := get_resumeRuntimes_some hx'
-      rw [hid]; exact h.rt_id r x hx
+      obtain ⟨x, hx, hc⟩ := get_resumeRuntimes_some hx'
+      rw [(rtCore_eq hc).1]; exact h.rt_id r x hx
     · intro e r hb
       obtain ⟨x, hx, hxe⟩ := h.rbe_sound e r hb
-      obtain ⟨x', hx', _, hent, _⟩ := get_resumeRuntimes_of (l := n.runtimes) hx
-      exact ⟨x', by rw [hrts]; exact hx', by rw [hent]; exact hxe⟩
+      obtain ⟨x', hx', hc⟩ := get_resumeRuntimes_of (ok := mayResume s (s.claims.set (.ent n.entity, .node n.id) (nodeThr n)))
+        (l := n.runtimes) hx
+      exact ⟨x', by rw [hrts]; exact hx', by rw [(rtCore_eq hc).2.1]; exact hxe⟩
     · intro r x' hx'
       rw [hrts] at hx'
-      obtain ⟨x, hx, _, hent, _⟩ := get_resumeRuntimes_some hx'
-      rw [hent]; exact h.rbe_compl r x hx
-  · intro a c hc
-    simp only [regNodeOk, setNode, Map.get_set] at hc
+      obtain ⟨x, hx, hc⟩ := get_resumeRuntimes_some hx'
+      rw [(rtCore_eq hc).2.1]; exact h.rbe_compl r x hx
+  · intro a c ths hc
+    rw [hcl] at hc
+    simp only [Map.get_set] at hc
     by_cases hp : (Addr.ent n.entity, Claim.node n.id) = (a, c)
     · cases hp
-      exact ⟨n, by simp [hnodes, Map.get_set], rfl⟩
+      simp only [if_true, Option.some.injEq] at hc
+      exact ⟨n, by simp [hnodes, Map.get_set], rfl, hc.symm⟩
     · simp only [hp, if_false] at hc
-      have hi := h.cl_sound a c hc
+      have hi := h.cl_sound a c ths hc
       cases c with
       | entity => exact hi
       | node id =>
-        obtain ⟨m, hm, ha⟩ := hi
+        obtain ⟨m, hm, ha, ht⟩ := hi
         have hne : ¬ n.id = id := by
           intro e; subst e
           exact hp (by rw [ha, hsame m hm])
-        exact ⟨m, by simp [hnodes, Map.get_set, hne, hm], ha⟩
+        exact ⟨m, by simp [hnodes, Map.get_set, hne, hm], ha, ht⟩
       | runtime r =>
-        obtain ⟨x, hx, ha⟩ := hi
-        obtain ⟨x', hx', _, _, hsa⟩ := get_resumeRuntimes_of (l := n.runtimes) hx
-        exact ⟨x', by rw [hrts]; exact hx', by rw [hsa]; exact ha⟩
-  · intro a c hi
-    simp only [regNodeOk, setNode, Map.get_set]
+        obtain ⟨x, hx, ha, ht⟩ := hi
+        obtain ⟨x', hx', hc'⟩ := get_resumeRuntimes_of (ok := mayResume s (s.claims.set (.ent n.entity, .node n.id) (nodeThr n)))
+          (l := n.runtimes) hx
+        exact ⟨x', by rw [hrts]; exact hx', by rw [(rtCore_eq hc').2.2.1]; exact ha, by rw [(rtCore_eq hc').2.2.2.1]; exact ht⟩
+  · intro a c ths hi
+    rw [hcl]
+    simp only [Map.get_set]
     by_cases hp : (Addr.ent n.entity, Claim.node n.id) = (a, c)
-    · simp [hp]
+    · cases hp
+      obtain ⟨m, hm, _, ht⟩ := hi
+      rw [hnodes] at hm
+      simp only [Map.get_set, if_true, Option.some.injEq] at hm
+      subst hm
+      simp [ht]
     · simp only [hp, if_false]
       apply h.cl_compl
       cases c with
       | entity => exact hi
       | node id =>
-        obtain ⟨m, hm, ha⟩ := hi
+        obtain ⟨m, hm, ha, ht⟩ := hi
         rw [hnodes] at hm
         simp only [Map.get_set] at hm
         by_cases e : n.id = id
         · simp only [e, if_true, Option.some.injEq] at hm
           subst hm; subst e; exact absurd (by rw [ha]) hp
         · simp only [e, if_false] at hm
-          exact ⟨m, hm, ha⟩
+          exact ⟨m, hm, ha, ht⟩
       | runtime r =>
-        obtain ⟨x', hx', ha⟩ := hi
+        obtain ⟨x', hx', ha, ht⟩ := hi
         rw [hrts] at hx'
-        obtain ⟨x, hx, _, _, hsa⟩ := get_resumeRuntimes_some hx'
-        exact ⟨x, hx, by rw [← hsa]; exact ha⟩
-  · intro id
-    rw [hnodes]
+        obtain ⟨x, hx, hc'⟩ := get_resumeRuntimes_some hx'
+        exact ⟨x, hx, by rw [← (rtCore_eq hc').2.2.1]; exact ha, by rw [← (rtCore_eq hc').2.2.2.1]; exact ht⟩
+  · intro id m hm
+    rw [hnodes] at hm
     have hst : (regNodeOk ord s n).status = regNodeStatus s (s.nodes.get n.id) n (s.status.get n.id) := rfl
     rw [hst]
-    simp only [Map.get_set]
+    simp only [Map.get_set] at hm
     by_cases e : n.id = id
     · subst e
-      simp only [if_true]
-      constructor
-      · intro _; exact ⟨n, rfl⟩
-      · intro _
-        cases hc : s.nodes.get n.id with
-        | none => exact regNodeStatus_new s n _
-        | some cur => exact regNodeStatus_keeps s _ n _ n.id ((h.st_nodes n.id).2 ⟨cur, hc⟩)
-    · simp only [e, if_false]
-      constructor
-      · intro hx
-        rcases regNodeStatus_from s _ n _ id hx with e' | hx'
-        · exact absurd e'.symm e
-        · exact (h.st_nodes id).1 hx'
-      · intro hx
-        exact regNodeStatus_keeps s _ n _ id ((h.st_nodes id).2 hx)
+      cases hc : s.nodes.get n.id with
+      | none => exact regNodeStatus_new s n _
+      | some cur => exact regNodeStatus_keeps s _ n _ n.id (h.st_nodes n.id cur hc)
+    · simp only [e, if_false] at hm
+      exact regNodeStatus_keeps s _ n _ id (h.st_nodes id m hm)
   · rw [hnodes]; exact nodup_keys_set _ _ _ h.nodes_nodup
 
-
 /-- Under the invariant the "status missing after SetNode" path of `registerNode` is unreachable. -/
-theorem regNode_ok_or_unchanged (ord : Order) (s : State) (t : Key) (sn : SignedNode) (h : Inv s) :
-    (regNode ord s t sn).1 = s ∨
-    (NodeChecks s t sn ∧ regNode ord s t sn = (regNodeOk ord s sn.node, .ok)) := by
-  rcases regNode_spec ord s t sn with e | ⟨hc, e | ⟨hex, hst, _⟩⟩
+theorem regNode_ok_or_unchanged (gen : Bool) (ord : Order) (s : State) (t : Key) (sn : SignedNode) (h : Inv s) :
+    (regNode gen ord s t sn).1 = s ∨
+    (NodeChecks gen s t sn ∧ regNode gen ord s t sn = (regNodeOk ord s sn.node, .ok)) := by
+  rcases regNode_spec gen ord s t sn with e | ⟨hc, e | ⟨⟨cur, hcur⟩, hst, _⟩⟩
   · exact Or.inl e
   · exact Or.inr ⟨hc, e⟩
-  · obtain ⟨x, hx⟩ := (h.st_nodes sn.node.id).2 hex
+  · obtain ⟨x, hx⟩ := h.st_nodes sn.node.id cur hcur
     rw [hst] at hx; cases hx
 
-theorem accepted_of_nodeChecks {s : State} {t : Key} {sn : SignedNode} (h : IndexInv s)
-    (hc : NodeChecks s t sn) : Accepted s sn.node := by
+theorem accepted_of_nodeChecks {gen : Bool} {s : State} {t : Key} {sn : SignedNode} (h : IndexInv s)
+    (hc : NodeChecks gen s t sn) : Accepted s sn.node := by
   obtain ⟨ws, _, hv⟩ := hc.ent
   exact accepted_of_checks h (verifyNodeArgs_none hv) hc.update
 
-theorem regNode_inv_rf (s : State) (t : Key) (sn : SignedNode) (h : Inv s) :
-    Inv (regNode .removalsFirst s t sn).1 := by
-  rcases regNode_ok_or_unchanged .removalsFirst s t sn h with e | ⟨hc, e⟩
+theorem regNode_inv_rf (gen : Bool) (s : State) (t : Key) (sn : SignedNode) (h : Inv s) :
+    Inv (regNode gen .removalsFirst s t sn).1 := by
+  rcases regNode_ok_or_unchanged gen .removalsFirst s t sn h with e | ⟨hc, e⟩
   · rw [e]; exact h
   · rw [e]
     have ha := accepted_of_nodeChecks h.toIndexInv hc
     exact regNodeOk_inv_of _ s sn.node h (fun cur hcur => (ha.same cur hcur).1)
       (setNode_rf_index s sn.node h.toIndexInv ha)
 
-theorem regNode_inv_il (s : State) (t : Key) (sn : SignedNode) (h : Inv s)
+theorem regNode_inv_il (gen : Bool) (s : State) (t : Key) (sn : SignedNode) (h : Inv s)
     (hf : ∀ cur, s.nodes.get sn.node.id = some cur → ¬ forwardMove cur sn.node) :
-    Inv (regNode .interleaved s t sn).1 := by
-  rcases regNode_ok_or_unchanged .interleaved s t sn h with e | ⟨hc, e⟩
+    Inv (regNode gen .interleaved s t sn).1 := by
+  rcases regNode_ok_or_unchanged gen .interleaved s t sn h with e | ⟨hc, e⟩
   · rw [e]; exact h
   · rw [e]
     have ha := accepted_of_nodeChecks h.toIndexInv hc
